@@ -267,6 +267,9 @@ static void gen_defect(struct scen *sc, struct rng *r, long c)
 	sc->cfg.xplan[q].param = rnd32(r);
 	sc->cfg.xplan[q].ver_byte = (uint8_t)(rndp(r, 1, 2) ? (rndp(r, 1, 2) ? 0 : 2) : 255);
 	sc->cfg.nxplan = q + 1;
+	/* compound responses: benign announce/withdraw pairs ahead of the defect (they must be undone too) */
+	if ((c / ((D_COUNT - 1) * 18)) % 2 == 1)
+		sc->cfg.xplan[q].churn_first = (uint8_t)(1 + rndn(r, 3));
 	if ((c / ((D_COUNT - 1) * 18)) % 4 == 3) {
 		sc->np = 300;
 		sc->init_records = 120 + (int)rndn(r, 100);
